@@ -7,7 +7,8 @@ CONSTANTS Programs,     \* set of program functions [Keys -> rule record]
           MaxBuilds, MaxMutates, MaxRestarts, MaxCancels, MaxCrashes,
           WithDB,       \* subset of BOOLEAN: may an engine attach the database?
           Vers,         \* database/client version numbers an engine may use
-          CycleLists    \* candidate cycle reports
+          CycleLists,   \* candidate cycle reports
+          Reprog        \* which rule sets a restarted engine may come with: "same" | "one" | "any"
 
 VARIABLE budget         \* [builds, mutates, restarts, cancels, crashes]
 mcvars == <<vars, budget>>
@@ -15,6 +16,9 @@ mcvars == <<vars, budget>>
 Reasons == {"NeverBuilt", "SignatureChanged", "InvalidValue", "InputRebuilt"}
 MaxReqs == 4
 
+NextProgs == CASE Reprog = "same" -> {prog}
+               [] Reprog = "one"  -> {q \in Programs : Cardinality({k \in Keys : q[k] # prog[k]}) <= 1}
+               [] OTHER -> Programs
 Spend(f) == budget' = [budget EXCEPT ![f] = @ - 1]
 Keep == UNCHANGED budget
 
@@ -33,7 +37,7 @@ MCInit ==
 Between ==
   \/ budget.mutates > 0 /\ Spend("mutates") /\ \E x \in Leaves, v \in {0, 1} : Mutate(x, v)
   \/ cancelled # "no" /\ ResetForBuild /\ Keep
-  \/ budget.restarts > 0 /\ Spend("restarts") /\ \E np \in Programs, u \in WithDB, ver \in Vers : Restart(np, u, ver)
+  \/ budget.restarts > 0 /\ Spend("restarts") /\ \E np \in NextProgs, u \in WithDB, ver \in Vers : Restart(np, u, ver)
   \/ budget.builds > 0 /\ Spend("builds") /\ \E k \in Keys : BuildStart(k)
 
 EngineStep ==
@@ -62,7 +66,7 @@ ClientStep ==
 Faults ==
   \/ budget.cancels > 0 /\ Running /\ Spend("cancels") /\ Cancel(TRUE)
   \/ budget.crashes > 0 /\ Spend("crashes") /\ Crash
-  \/ ~alive /\ Keep /\ \E np \in Programs, u \in WithDB, ver \in Vers : Restart(np, u, ver)
+  \/ ~alive /\ Keep /\ \E np \in NextProgs, u \in WithDB, ver \in Vers : Restart(np, u, ver)
 
 MCNext ==
   \/ Between
